@@ -1,10 +1,9 @@
 SPECIFICATION TraceSpec
 CONSTANTS
-  NVarsSet <- MC_One
-  Grid <- MC_NoGrid
-  MaxExcluded = 0
+  Schemes <- MC_NoSchemes
   AllowMalformed = TRUE
   AsFound_SignedRelativeTest = FALSE
   AsFound_NearZeroBandIgnoresDrift = FALSE
+  AsFound_ExclusionBySubstring = FALSE
 POSTCONDITION AllConsumed
 CHECK_DEADLOCK FALSE
